@@ -97,7 +97,9 @@ def tlc(sd, module, cfg, args=(), env=None, timeout=600, xmx="4g", workers=None,
     if env:
         e.update(env)
     cp = TLA_CP + ":" + sd + (":" + extra_cp if extra_cp else "")
-    jopts = ["-XX:+UseParallelGC", "-Xmx" + xmx, "-Xss64m"]
+    tmpd = os.path.join(sd, "jtmp")          # TLC leaves an empty directory per run in java.io.tmpdir: keep it out of /tmp
+    os.makedirs(tmpd, exist_ok=True)
+    jopts = ["-XX:+UseParallelGC", "-Xmx" + xmx, "-Xss64m", "-Djava.io.tmpdir=" + tmpd]
     if deque:
         jopts.append("-Dtlc2.tool.queue.IStateQueue=StateDeque")
     cmd = ["java"] + jopts + ["-cp", cp, "tlc2.TLC", "-metadir", os.path.join(sd, "md_" + cfg.replace(".", "_")),
